@@ -116,9 +116,18 @@ def _history_independence(A):
     from chartparse.instrument import Instrument, Difficulty
     repo = os.environ.get("CHARTPARSE_REPO", "/repo")
     here = os.path.dirname(os.path.dirname(os.path.abspath(__file__)))
-    env = dict(os.environ, PYTHONPATH=os.pathsep.join([here, repo]))
+    env = dict(os.environ, PYTHONPATH=os.pathsep.join([os.path.join(here, ".deps"), here, repo]))
     out = subprocess.run([sys.executable, "-c", _CHILD, repo], input=A, capture_output=True, text=True, env=env, timeout=120)
     fresh = json.loads(out.stdout.strip().splitlines()[-1]) if out.returncode == 0 and out.stdout.strip() else None
+    if fresh is None:
+        raise RuntimeError("fresh-process parse failed: " + (out.stderr or "")[-300:])
+    # fresh processes under different string-hash seeds: any dependence on set/dict-of-str hash order shows
+    for hs in ("1", "2", "3", "4", "5"):
+        o2 = subprocess.run([sys.executable, "-c", _CHILD, repo], input=A, capture_output=True, text=True, env=dict(env, PYTHONHASHSEED=hs), timeout=120)
+        f2 = json.loads(o2.stdout.strip().splitlines()[-1]) if o2.returncode == 0 and o2.stdout.strip() else None
+        if fresh is not None and f2 is not None and f2 != fresh:
+            return {"history": f"parse A in a fresh process; parse A in a fresh process with PYTHONHASHSEED={hs}",
+                    "observed": "the two parses of the same text differ (dependence on hash order)", "chart_text": A}
     first = repr(observe(cc.Chart.from_file(io.StringIO(A))))
     steps = ["parse A"]
     for label, text, kw in ((("parse B", OTHER, {}), ("parse A restricted", A, {"want_tracks": [(Instrument.GUITAR, Difficulty.HARD)]}),
